@@ -453,3 +453,7 @@ fn copy_selection_data(
 
     (route_indices, jobs)
 }
+
+#[cfg(kani)]
+#[path = "/verif/kani/vrp-core/insertions_proofs.rs"]
+mod verif_kani_proofs;
